@@ -33,6 +33,10 @@ ASSUMPTIONS = ["positive-definite sequences are biased autocorrelations of rando
                "complex `<=` and the model's `re P <= 0` coincide; TOEPLITZ: exact zero test on both sides",
                "entry forms: numpy arrays (float64, complex128, integer dtypes), lists, tuples, nested lists, numpy "
                "scalars for T0 / order; a Python complex T0 for HERMTOEP is outside the statement",
+               "argument protocol: a scalar argument may be any object that holds one number -- Python and numpy scalars and "
+               "0-dimensional numpy arrays (numpy.array(r0), a scalar read back by numpy.load, buf[0, ...]), integer-valued "
+               "ones in integer containers; 1-element 1-D arrays are not scalars (numpy 2 rejects them); the solvers are "
+               "functions of the VALUES of their arguments: they must not write into any argument object",
                "nearly singular positive-definite sequences (1e-6 > rho = P_p/r0): the class is rho >= Kdom*eps with Kdom = 8 "
                "(AR(1)), 32 (constant + floor), 200..3200 (rounded phases, tones, lattices): below a few eps (tens of eps "
                "for the less structured families) the double-precision recursion loses the pivot to its own rounding and "
@@ -53,7 +57,19 @@ RULE = ("PD sequences = biased autocorrelation of random dyadic data (real/compl
         "the same leading reflection coefficients, allow_singularity=True / order omitted giving the identical result; "
         "the same matrices (n <= 12) as systems for HERMTOEP and TOEPLITZ (return, finite, backward-error residual); "
         "well-conditioned Hermitian / real symmetric INDEFINITE and negative-definite systems through the general solver "
-        "(first row = conj(first column), real diagonal; cond <= 1e3, every stage error >= 1e-3 |T0| in modulus)")
+        "(first row = conj(first column), real diagonal; cond <= 1e3, every stage error >= 1e-3 |T0| in modulus); "
+        "ARGUMENT PROTOCOL (kinds lev-args / herm-args / toep-args / chol-args, n <= 13): the argument objects are built once "
+        "and used for 2-3 calls (second right-hand side, the same solve repeated, the normalised solution fed back as the "
+        "next right-hand side, LEVINSON at order p / a lower order / order p again); T0 (and r[0] inside a list / tuple, and "
+        "the order) in every scalar container: Python float / int / complex with zero imaginary part, numpy float64 / "
+        "complex128 / int64, 0-d numpy array (float, int, complex, read-only), 0-d view of the caller's autocorrelation "
+        "buffer (buf[0:1].reshape(()), buf[0, ...]); array arguments as ndarray, read-only, strided view, views of one "
+        "common buffer, list, tuple, integer dtype, Fortran order / interior view (CHOLESKY); aliasing arguments (Z the "
+        "whole buffer T0 and T are views of, TC and TR the same object, B a row / column view of A); after EVERY call every "
+        "argument (0-d arrays, list elements, underlying buffers) must be byte-for-byte unchanged, the solution of that call "
+        "must satisfy the residual clause against the independently held matrix and against the matrix rebuilt from the "
+        "passed objects, earlier solutions must be unchanged, a repeated LEVINSON call must return the identical result; the "
+        "last call is compared with the exact model")
 
 
 def _sp():
@@ -937,6 +953,8 @@ def gen(rng, nrng, tier):
     # random stream)
     yield from _gen_nearsing(nrng, tier)
     yield from _gen_herm_general(nrng, tier)
+    # the argument protocol (containers of the scalar arguments, re-use of the argument objects, aliasing arguments)
+    yield from _gen_args(nrng, tier)
 
 
 _AMPS = [2.0 ** -80, 2.0 ** -30, 2.0 ** 40, 2.0 ** 70]
@@ -1127,3 +1145,458 @@ def _gen_extra(nrng, tier, maxn):
             p["B"] = B * s2
             p["amp"] = "2^%d/2^%d" % (round(np.log2(s1)), round(np.log2(s2)))
         yield ("cholesky", p)
+
+
+# --------------------------------------------------------------------------------------------------------------------
+# ARGUMENT PROTOCOL (kinds lev-args / herm-args / toep-args / chol-args).  The solvers are called the way a caller who keeps
+# his system around calls them: the argument OBJECTS are built once and then used for several calls (a second right-hand
+# side, the same solve repeated, the solution fed back as the next right-hand side as the inverse iteration of
+# spectrum.eigen.MINEIGVAL does, a lower order on the same autocorrelation sequence).  Generated dimensions:
+#   * the CONTAINER of every scalar argument (T0, the zero lag r[0] inside a list, the order): Python float / int / complex
+#     with zero imaginary part, numpy.float64 / complex128 / int64, a 0-dimensional numpy array (float, int, complex,
+#     read-only), a 0-d VIEW of the caller's autocorrelation buffer (buf[0:1].reshape(()), buf[0, ...]);
+#   * the container of every array argument: ndarray, read-only ndarray, views of one common buffer (T0, T, Z all looking
+#     into the same memory), list, tuple, integer dtype, Fortran order / interior view of a larger matrix (CHOLESKY);
+#   * arguments that ALIAS each other: Z the caller's whole autocorrelation buffer of which T0 and T are views (solution
+#     e_0), TC and TR the same object, B a row / column view of A;
+#   * the history: second right-hand side / repeated solve / fed-back solution / lower order in between.
+# Demanded after EVERY call: (1) every argument object -- 0-d arrays, list elements and the whole underlying buffer
+# included -- is byte-for-byte what it was before the first call (type, dtype, shape, bytes); (2) the solution of THAT call
+# satisfies the residual clause of the property (same tolerances as the one-shot kinds: nothing new to calibrate) against
+# the matrix the harness holds independently; (3) the solutions handed out earlier are unchanged.  At the end the residual
+# is evaluated once more with the matrix rebuilt from the very objects that were passed.  The last call's result is what is
+# compared with the exact Lean model (lev / hermtoep / toeplitz requests on the canonical values).
+
+_T0C_H = ["pyfloat", "npfloat", "0d", "0d-slice", "0d-elem", "npcomplex", "0d-complex", "0d-readonly", "pyint", "0d-int", "npint"]
+_T0C_T = _T0C_H + ["pycomplex"]
+
+
+def _snap(o):
+    """byte-exact record of an argument object"""
+    if isinstance(o, np.ndarray):
+        return ("ndarray", o.dtype.str, o.shape, o.strides, o.tobytes(), bool(o.flags.writeable))
+    if isinstance(o, (list, tuple)):
+        return (type(o).__name__, tuple(_snap(e) for e in o))
+    return (type(o).__name__, repr(o))
+
+
+def _describe(o):
+    if isinstance(o, np.ndarray):
+        return "%d-d %s array %s" % (o.ndim, o.dtype, np.array2string(o, precision=6, threshold=6))
+    if isinstance(o, (list, tuple)):
+        return "%s [%s%s]" % (type(o).__name__, ", ".join(_describe(e) for e in o[:3]), ", ..." if len(o) > 3 else "")
+    return "%s %r" % (type(o).__name__, o)
+
+
+class _Args:
+    """named argument objects + their snapshot"""
+
+    def __init__(self):
+        self.objs = {}
+        self.before = {}
+        self.shown = {}
+
+    def add(self, name, o):
+        self.objs[name] = o
+        self.before[name] = _snap(o)
+        self.shown[name] = _describe(o)
+        return o
+
+    def changed(self, fn, when):
+        out = []
+        for name, o in self.objs.items():
+            if _snap(o) != self.before[name]:
+                out.append("%s changed its argument %s in place (%s): it was the %s, it is now the %s" % (
+                    fn, name, when, self.shown[name], _describe(o)))
+                self.before[name] = _snap(o)        # reported once
+                self.shown[name] = _describe(o)
+        return out
+
+
+def _is_int(v):
+    return np.all(np.imag(v) == 0) and np.array_equal(np.real(v), np.round(np.real(v)))
+
+
+def _scalar_obj(v, cont, buf=None):
+    """the scalar v in the container `cont` (buf: the caller's buffer whose element 0 holds v, for the view containers)"""
+    if cont == "pyfloat":
+        return float(np.real(v)) if np.imag(v) == 0 else complex(v)
+    if cont == "pycomplex":
+        return complex(v)
+    if cont == "npfloat":
+        return np.float64(np.real(v)) if np.imag(v) == 0 else np.complex128(v)
+    if cont == "npcomplex":
+        return np.complex128(v)
+    if cont in ("pyint", "npint", "0d-int"):
+        assert _is_int(v), "integer container of a non-integer scalar"
+        i = int(np.real(v))
+        return i if cont == "pyint" else np.int64(i) if cont == "npint" else np.array(i)
+    if cont in ("0d", "0d-readonly"):
+        a = np.array(float(np.real(v)) if np.imag(v) == 0 else complex(v))
+        if cont == "0d-readonly":
+            a.setflags(write=False)
+        return a
+    if cont == "0d-complex":
+        return np.array(complex(v))
+    if cont == "0d-slice":
+        assert buf[0] == v
+        return buf[0:1].reshape(())
+    if cont == "0d-elem":
+        assert buf[0] == v
+        return buf[0, ...]
+    raise ValueError(cont)
+
+
+def _array_obj(v, cont):
+    v = np.asarray(v)
+    if cont == "ndarray":
+        return v.copy()
+    if cont == "readonly":
+        a = v.copy()
+        a.setflags(write=False)
+        return a
+    if cont == "strided":
+        big = np.full(2 * v.size + 1, 7.25e3, dtype=v.dtype)
+        big[1::2] = v
+        return big[1::2]
+    if cont in ("list", "tuple", "int", "int32", "mixedlist"):
+        return _form(v, cont)
+    raise ValueError(cont)
+
+
+def _res_tol(T, z):
+    # the residual clause of the one-shot kinds (oracle_herm / oracle_toep)
+    return 1e-8 * max(np.max(np.abs(z)), 1e-300) * max(1.0, np.linalg.cond(T))
+
+
+def _sol_args(p, herm, check=True):
+    """HERMTOEP / TOEPLITZ under the argument protocol -> (failures, last solution)"""
+    from spectrum.toeplitz import HERMTOEP, TOEPLITZ
+    name = "HERMTOEP" if herm else "TOEPLITZ"
+    T0 = p["T0"]
+    TC = np.asarray(p["T"] if herm else p["TC"])
+    TR = np.conj(TC) if herm else np.asarray(p["TR"])
+    Z = np.asarray(p["Z"])
+    n = len(TC)
+    Tm = sp_toeplitz(np.concatenate(([T0], TC)), np.concatenate(([T0], TR)))     # held by the harness, never passed
+    ar = _Args()
+    tc, zc, t0c = p.get("tc", "ndarray"), p.get("zc", "ndarray"), p["t0c"]
+    buf = None
+    if tc == "bufview" or t0c in ("0d-slice", "0d-elem") or zc == "alias":
+        # the caller's autocorrelation buffer [T0, first column (, first row)]: T0 / TC / TR / Z are views of it
+        cplx = np.iscomplexobj(TC) or np.iscomplexobj(TR) or np.imag(T0) != 0
+        buf = ar.add("(the buffer the arguments are views of)",
+                     np.concatenate(([T0], TC) if herm else ([T0], TC, TR)).astype(complex if cplx else float))
+    t0o = ar.add("T0", _scalar_obj(T0, t0c, buf))
+    if tc == "bufview" or (buf is not None and zc == "alias"):
+        tco = ar.add("T" if herm else "TC", buf[1:n + 1])
+        tro = None if herm else ar.add("TR", buf[n + 1:])
+    elif tc == "same":
+        assert not herm and np.array_equal(TC, TR)
+        tco = tro = ar.add("TC (and TR: the same object)", TC.copy())
+    else:
+        tco = ar.add("T" if herm else "TC", _array_obj(TC, tc))
+        tro = None if herm else ar.add("TR", _array_obj(TR, tc))
+
+    def zobj(z, label):
+        if zc == "alias":
+            assert np.array_equal(z, buf[:n + 1]), "alias: Z must be the first column"
+            return ar.add(label, buf[:n + 1])
+        return ar.add(label, _array_obj(z, zc))
+    pattern = p["pattern"]
+    zo = zobj(Z, "Z")
+    if pattern == "repeat":
+        steps = [(zo, Z), (zo, Z)]
+    else:
+        Z1 = np.asarray(p["Z1"])
+        steps = [(ar.add("Z (first right-hand side)", _array_obj(Z1, "ndarray" if zc == "alias" else zc)), Z1)]
+        if pattern == "feedback":
+            steps.append(("feedback", None))
+        steps.append((zo, Z))
+    out = []
+    sols = []
+    x = None
+    for j, (zj, zv) in enumerate(steps):
+        when = "call %d of %d with the same T0 / T objects, T0 given as %s, pattern %s" % (j + 1, len(steps), t0c, pattern)
+        if isinstance(zj, str):
+            # inverse iteration: the normalised previous solution is the next right-hand side
+            zv = np.array(x) / max(np.max(np.abs(x)), 1e-300)
+            zj = ar.add("Z (the previous solution, normalised)", zv.copy())
+        try:
+            x = HERMTOEP(t0o, tco, zj) if herm else TOEPLITZ(t0o, tco, tro, zj)
+        except Exception as e:
+            if not check:
+                raise
+            return out + ["%s raised %r on an admissible system (n=%d; %s)" % (name, e, n + 1, when)] + ar.changed(name, when), None
+        x = np.asarray(x)
+        if not check:
+            continue
+        if x.shape != zv.shape:
+            return out + ["%s: solution of shape %s for a right-hand side of shape %s (%s)" % (name, x.shape, zv.shape, when)], None
+        res = np.max(np.abs(Tm @ x - zv))
+        if not res <= _res_tol(Tm, zv):
+            out.append("%s: T x != z, residual %.2e > %.2e (n=%d, tc=%s zc=%s; %s)" % (name, res, _res_tol(Tm, zv), n + 1, tc, zc, when))
+        out += ar.changed(name, when)
+        for i, (xo, xc) in enumerate(sols):
+            if not np.array_equal(xo, xc, equal_nan=True):
+                out.append("%s: the solution returned by call %d was overwritten by call %d" % (name, i + 1, j + 1))
+        sols.append((x, x.copy()))
+    if check and x is not None:
+        # the residual of the last solve from the very objects that were passed
+        t0v = complex(np.asarray(t0o))
+        T2 = sp_toeplitz(np.concatenate(([t0v], np.asarray(tco, dtype=complex))),
+                         np.concatenate(([t0v], np.conj(np.asarray(tco, dtype=complex)) if herm else np.asarray(tro, dtype=complex))))
+        z2 = np.asarray(steps[-1][0], dtype=complex)
+        res = np.max(np.abs(T2 @ x - z2))
+        if not res <= _res_tol(Tm, Z):
+            out.append("%s: residual %.2e > %.2e when the matrix is rebuilt from the objects that were passed (T0 is now the %s)" % (
+                name, res, _res_tol(Tm, Z), _describe(t0o)))
+    return out, x
+
+
+def _lev_args(p, check=True):
+    """LEVINSON under the argument protocol: order p, a lower order, order p again on the same objects"""
+    sp = _sp()
+    r = np.asarray(p["r"])
+    n = len(r)
+    order = n - 1 if p["order"] is None else p["order"]
+    ar = _Args()
+    rc, r0c, oc = p["rc"], p.get("r0c"), p.get("oc", "pyint")
+    if rc in ("list", "tuple"):
+        # the zero lag inside the sequence in its own container
+        side = ar.add("(the array r[0] is a view of)", np.array([np.real(r[0]), 7.25e3])) if r0c in ("0d-slice", "0d-elem") else None
+        lst = _form(r, "list")
+        if r0c:
+            lst[0] = _scalar_obj(np.real(r[0]), r0c, side)
+        ro = ar.add("r", lst if rc == "list" else tuple(lst))
+    else:
+        ro = ar.add("r", _array_obj(r, rc))
+        if rc == "strided":
+            ar.add("(the buffer r is a view of)", ro.base)
+
+    def oobj(o):
+        return None if o is None else ar.add("order", _scalar_obj(o, oc))
+    q = p.get("q")
+    calls = [("order=%s" % p["order"], p["order"])]
+    if q is not None and 1 <= q <= order:
+        calls.append(("order=%d" % q, q))
+    calls.append(("order=%s again" % p["order"], p["order"]))
+    out = []
+    results = []
+    for j, (label, o) in enumerate(calls):
+        when = "call %d of %d (%s) on the same r object, r given as %s%s" % (j + 1, len(calls), label, rc, "/r[0] as " + r0c if r0c else "")
+        try:
+            A, P, k = sp.LEVINSON(ro, oobj(o), allow_singularity=p["allow"])
+        except Exception as e:
+            if not check:
+                raise
+            return out + ["LEVINSON raised %r on a positive-definite sequence (n=%d; %s)" % (e, n, when)] + ar.changed("LEVINSON", when), None
+        A, k = np.asarray(A), np.asarray(k)
+        if check:
+            out += ar.changed("LEVINSON", when)
+            oo = n - 1 if o is None else o
+            if len(A) != oo or len(k) != oo:
+                return out + ["LEVINSON returned %d coefficients for order %d (%s)" % (len(A), oo, when)], None
+            for rr, what in ((r, "the sequence held by the harness"), (np.asarray(ro, dtype=complex), "the object that was passed")):
+                lhs = _T(rr, oo) @ np.concatenate(([1], A))
+                lhs[0] -= P
+                if not np.max(np.abs(lhs)) <= 1e-8 * abs(r[0]):
+                    out.append("T_p [1,a]^T != [P,0..0]^T: residual %.2e with %s (n=%d; %s)" % (np.max(np.abs(lhs)), what, n, when))
+            if not (np.isreal(P) and P > 0 and np.all(np.abs(k) < 1)):
+                out.append("P = %r / max|k| = %r on a positive-definite sequence (%s)" % (P, np.max(np.abs(k)) if len(k) else 0, when))
+            for i, (res0, cop0) in enumerate(results):
+                if not all(np.array_equal(np.asarray(u), v) for u, v in zip(res0, cop0)):
+                    out.append("LEVINSON: the result of call %d was changed by call %d (%s)" % (i + 1, j + 1, when))
+        results.append(((A, P, k), (A.copy(), np.array(P, copy=True), k.copy())))
+    if check:
+        first, last = results[0][1], results[-1][1]
+        if not all(np.array_equal(u, v) for u, v in zip(first, last)):
+            out.append("LEVINSON called again with the same objects does not return the same result: P %r then %r (r as %s/%s)" % (
+                first[1], last[1], rc, r0c))
+        if len(calls) == 3 and rel(results[1][1][2].astype(complex), last[2][:q].astype(complex)) > 1e-9:
+            out.append("order-%d reflection coefficients are not a prefix of the order-%d ones (same r object)" % (q, order))
+    A, P, k = results[-1][1]
+    return out, [A, np.array([P]).ravel(), k]
+
+
+def _chol_args(p):
+    sp = _sp()
+    A = np.asarray(p["A"])
+    B = np.asarray(p["B"])
+    B1 = np.asarray(p["B1"])
+    n = len(A)
+    ac, bc = p["ac"], p["bc"]
+    ar = _Args()
+    if ac == "interior":
+        big = ar.add("(the matrix A is a view of)", np.full((n + 2, n + 3), 7.25e3, dtype=A.dtype))
+        big[1:n + 1, 2:n + 2] = A
+        ar.before["(the matrix A is a view of)"] = _snap(big)
+        Ao = ar.add("A", big[1:n + 1, 2:n + 2])
+    elif ac == "fortran":
+        Ao = ar.add("A", np.asfortranarray(A.copy()))
+    elif ac in ("list", "int", "int32"):
+        Ao = ar.add("A", _form(A, ac))
+    else:
+        Ao = ar.add("A", _array_obj(A, ac))
+    if bc in ("rowview", "colview"):
+        Bo = ar.add("B", Ao[0] if bc == "rowview" else Ao[:, 0])
+        assert np.array_equal(Bo, B)
+        B1o = ar.add("B (first right-hand side)", B1.copy())
+    else:
+        Bo = ar.add("B", _array_obj(B, bc))
+        B1o = ar.add("B (first right-hand side)", _array_obj(B1, bc))
+    cond = max(1.0, np.linalg.cond(A))
+    out = []
+    for m in ["scipy", "numpy", "numpy_solver", None]:
+        for j, (bo, bv) in enumerate([(B1o, B1), (Bo, B), (Bo, B)] if p["pattern"] == "repeat" else [(B1o, B1), (Bo, B)]):
+            when = "method=%s, call %d with the same A object, A as %s, B as %s" % (m, j + 1, ac, bc)
+            try:
+                X = np.asarray(sp.CHOLESKY(Ao, bo) if m is None else sp.CHOLESKY(Ao, bo, method=m))
+            except Exception as e:
+                out.append("CHOLESKY raised %r on a Hermitian positive-definite system (n=%d; %s)" % (e, n, when))
+                out += ar.changed("CHOLESKY", when)
+                break
+            out += ar.changed("CHOLESKY", when)
+            if X.shape != bv.shape:
+                out.append("CHOLESKY: solution of shape %s for a right-hand side of shape %s (%s)" % (X.shape, bv.shape, when))
+                break
+            res = np.max(np.abs(A @ X - bv))
+            # the residual clause of the one-shot kind (oracle_chol)
+            if not res <= 1e-9 * max(np.max(np.abs(bv)), 1e-300) * cond:
+                out.append("CHOLESKY: A x != B, residual %.2e (n=%d %s; %s)" % (res, n, A.dtype, when))
+            res2 = np.max(np.abs(np.asarray(Ao, dtype=complex) @ X - np.asarray(bo, dtype=complex)))
+            if not res2 <= 1e-9 * max(np.max(np.abs(bv)), 1e-300) * cond:
+                out.append("CHOLESKY: residual %.2e with the objects that were passed (n=%d; %s)" % (res2, n, when))
+    return out
+
+
+def _argtags(p):
+    t = []
+    for name in ("t0c", "r0c", "oc", "rc", "tc", "zc", "ac", "bc", "pattern"):
+        if p.get(name):
+            t.append("args:%s=%s" % (name, p[name]))
+    return t
+
+
+KINDS["herm-args"] = {"impl": lambda p: [_sol_args(p, True, check=False)[1]], "model": model_herm,
+                      "oracle": lambda p: _sol_args(p, True)[0], "rtol": 1e-7, "atol": 1e-300, "key": _key,
+                      "tags": lambda p: ["args:HERMTOEP"] + _argtags(p)}
+KINDS["toep-args"] = {"impl": lambda p: [_sol_args(p, False, check=False)[1]], "model": model_toep,
+                      "oracle": lambda p: _sol_args(p, False)[0], "rtol": 1e-7, "atol": 1e-300, "key": _key,
+                      "tags": lambda p: ["args:TOEPLITZ"] + _argtags(p)}
+KINDS["lev-args"] = {"impl": lambda p: _lev_args(p, check=False)[1], "model": model_lev,
+                     "oracle": lambda p: _lev_args(p)[0], "rtol": 1e-7, "atol": 1e-300, "key": _key, "strict_errors": True,
+                     "tags": lambda p: ["args:LEVINSON"] + _argtags(p), "nontrivial": lambda p: len(p["r"]) >= 2}
+KINDS["chol-args"] = {"oracle": _chol_args, "key": _key, "tags": lambda p: ["args:CHOLESKY"] + _argtags(p)}
+
+
+def _gen_args(nrng, tier):
+    thorough = tier != "quick"
+    reps = 1 if not thorough else 6
+    patterns = ["second-rhs", "repeat", "feedback"]
+    k = 0
+    # ---- HERMTOEP / TOEPLITZ: every container of T0 x every history, the array containers and the aliasing rotating
+    for rep in range(reps):
+        for ci, t0c in enumerate(_T0C_T):
+            for pi, pattern in enumerate(patterns):
+                k += 1
+                integer = t0c in ("pyint", "0d-int", "npint")
+                cplx = bool((k + rep) % 2) and not integer
+                zcplx = bool((k // 2) % 2) and not integer
+                n = int(nrng.integers(1, 9))
+                tcs = (["int", "list", "int32"] if integer else ["ndarray", "bufview", "readonly", "list", "strided", "tuple"])
+                tc = tcs[(k + ci) % len(tcs)]
+                if t0c in ("0d-slice", "0d-elem"):
+                    tc = "bufview"
+                zcs = ["int", "list"] if integer else ["ndarray", "list", "readonly", "alias", "strided"]
+                zc = zcs[(k // 3 + pi) % len(zcs)]
+                if tc == "bufview" and (k + pi) % 2:
+                    zc = "alias"                       # Z is the caller's whole buffer, T0 / T views of it
+                if zc == "alias" and tc != "bufview":
+                    zc = "ndarray"
+                if integer:
+                    r = _int_pd_seq(nrng, n + 1)
+                    r[0] += 1.0
+                    Z = nrng.integers(-9, 10, n + 1).astype(float)
+                    Z1 = nrng.integers(-9, 10, n + 1).astype(float)
+                    TC = nrng.integers(-3, 4, n).astype(float)
+                    TR = nrng.integers(-3, 4, n).astype(float)
+                    T0g = float(np.sum(np.abs(TC)) + np.sum(np.abs(TR)) + 1 + int(nrng.integers(0, 3))) * [1, -1][k % 2]
+                else:
+                    r = _pd_seq(nrng, n + 1, cplx).copy()
+                    r[0] = r[0] * 1.25
+                    Z = dyadic(nrng, n + 1) + (1j * dyadic(nrng, n + 1) if zcplx else 0)
+                    Z1 = dyadic(nrng, n + 1) + (1j * dyadic(nrng, n + 1) if zcplx else 0)
+                    TC = dyadic(nrng, n, bits=4, scale=1) / (2 * n) + (1j * dyadic(nrng, n, bits=4, scale=1) / (2 * n) if cplx else 0)
+                    TR = dyadic(nrng, n, bits=4, scale=1) / (2 * n) + (1j * dyadic(nrng, n, bits=4, scale=1) / (2 * n) if cplx else 0)
+                    T0g = [2.0, -2.0, 2.5, 3.0][(k // 4) % 4]
+                    if t0c in ("pycomplex", "npcomplex", "0d-complex") and k % 2:
+                        T0g = [2.0 + 1.0j, -2.0 + 1.0j, 2.5j + 2.0][(k // 2) % 3]    # the general solver: complex diagonal
+                if not np.any(Z1):
+                    Z1[0] = 1.0
+                if not np.any(Z):
+                    Z[0] = 1.0
+                if r[0] > 0 and min(_stage_errors(r) or [1.0]) > 1e-6 and t0c != "pycomplex":
+                    # (a Python complex T0 for HERMTOEP is outside the statement: see ASSUMPTIONS)
+                    p = {"T0": float(np.real(r[0])), "T": r[1:], "Z": Z, "Z1": Z1, "t0c": t0c, "tc": tc, "zc": zc, "pattern": pattern}
+                    if zc == "alias":
+                        p["Z"] = np.concatenate(([p["T0"]], r[1:]))
+                    yield ("herm-args", p)
+                tct = tc
+                if (k // 5) % 4 == 3 and not integer and t0c not in ("0d-slice", "0d-elem"):
+                    tct = "same"                       # symmetric system: first row and first column the same object
+                    TR = TC.copy()
+                    zc = "ndarray" if zc == "alias" else zc
+                p = {"T0": T0g, "TC": TC, "TR": TR, "Z": Z, "Z1": Z1, "t0c": t0c, "tc": tct, "zc": zc, "pattern": pattern}
+                if zc == "alias":
+                    p["Z"] = np.concatenate(([T0g], TC))
+                yield ("toep-args", p)
+    # ---- LEVINSON: r as array / read-only / strided view / int / list / tuple; inside lists the zero lag in every container;
+    # the order in every integer container
+    r0cs = ["pyfloat", "pycomplex", "npfloat", "0d", "0d-slice", "0d-elem", "0d-readonly", "npcomplex", "0d-complex", "pyint", "0d-int", "npint"]
+    rcs = ["ndarray", "readonly", "strided", "int"]
+    for i in range((36 if not thorough else 240)):
+        cplx = bool(i % 2)
+        n = int(nrng.integers(2, 13))
+        rc = [rcs[(i // 3) % 4], "list", "tuple"][i % 3]
+        r0c = r0cs[(i // 3) % len(r0cs)] if rc in ("list", "tuple") else None
+        integer = rc == "int" or r0c in ("pyint", "0d-int", "npint")
+        if integer:
+            cplx = False
+        r = _int_pd_seq(nrng, n) if integer else _pd_seq(nrng, n, cplx)
+        if min(_stage_errors(r)) < 1e-6:
+            continue
+        order = [None, n - 1, int(nrng.integers(1, n))][(i // 2) % 3]
+        o = n - 1 if order is None else order
+        yield ("lev-args", {"r": r, "order": order, "allow": bool((i // 4) % 2), "cls": "pd", "q": int(nrng.integers(1, o + 1)) if i % 5 else None,
+                            "rc": rc, "r0c": r0c, "oc": ["pyint", "npint", "0d-int"][(i // 2) % 3]})
+    # ---- CHOLESKY: the same A object for two right-hand sides and the four back ends; B a row / column view of A
+    acs = ["ndarray", "readonly", "fortran", "interior", "list", "int"]
+    bcs = ["ndarray", "readonly", "rowview", "colview", "list", "strided"]
+    for i in range(18 if not thorough else 120):
+        n = [1, 3, 6, 2, 4, int(nrng.integers(5, 13))][i % 6]
+        ac = acs[(i // 2) % 6]
+        bc = bcs[i % 6]
+        integer = ac == "int"
+        cplx = bool((i // 3) % 2) and not integer
+        if integer:
+            G = nrng.integers(-3, 4, (n + 1, n)).astype(float)
+            bc = ["int", "list", "ndarray"][i % 3]
+        else:
+            G = dyadic(nrng, (n + 1) * n, bits=4, scale=1).reshape(n + 1, n)
+            if cplx:
+                G = G + 1j * dyadic(nrng, (n + 1) * n, bits=4, scale=1).reshape(n + 1, n)
+        A = np.conj(G.T) @ G + np.eye(n)
+        if bc in ("rowview", "colview") and ac in ("list", "int"):
+            bc = "ndarray"
+        if integer:
+            B = nrng.integers(-9, 10, n).astype(float)
+            B1 = nrng.integers(-9, 10, n).astype(float)
+        else:
+            B = dyadic(nrng, n) + (1j * dyadic(nrng, n) if (i // 2) % 2 else 0)
+            B1 = dyadic(nrng, n) + (1j * dyadic(nrng, n) if (i // 2) % 2 else 0)
+        if bc == "rowview":
+            B = A[0].copy()
+        elif bc == "colview":
+            B = A[:, 0].copy()
+        yield ("chol-args", {"A": A, "B": B, "B1": B1, "ac": ac, "bc": bc, "pattern": ["second-rhs", "repeat"][(i // 6) % 2]})
